@@ -252,6 +252,54 @@ def h_translate_cigar(ops):
     return fn
 
 
+def revcomp(sq):
+    return sq[::-1].translate(str.maketrans("ACGTacgt", "TGCAtgca"))
+
+
+POLYA_READS = [
+    # (aligned body, soft-clipped tail): external tails of different length / purity, a tail that begins inside the aligned part,
+    # an A-rich 3' end without clipping (internal tail), no tail at all
+    ("ACGTTGCA" * 8, "A" * 30), ("ACGTTGCA" * 8, "A" * 20), ("ACGTTGCA" * 8, "A" * 12 + "C" + "A" * 14), ("ACGTTGCA" * 6 + "AAAAAAAAAAAA", "A" * 25),
+    ("ACGTTGCA" * 6 + "ACAAAAAAAAAAAAAAAAAAAAAAAAAA", ""), ("ACGTTGCA" * 8, "CCGT" * 6), ("ACGTTGCA" * 8, "GG" + "A" * 28), ("ACGTTGCA" * 8, ""),
+]
+
+
+class SeqAlignment:
+    def __init__(self, ref_start, body, head="", tail=""):
+        self.reference_start = ref_start                       # 0-based
+        self.reference_end = ref_start + len(body)             # 0-based, exclusive
+        self.seq = head + body + tail
+        self.query_sequence = self.seq
+        self.cigartuples = ([(4, len(head))] if head else []) + [(0, len(body))] + ([(4, len(tail))] if tail else [])
+        self.query_name = "r"
+
+
+def h_polya_finder(g):
+    """PolyAFinder.detect_polya on an alignment with a polyA tail and on its reverse complement (polyT head): the four reported
+    positions are mirror images.  Coordinates: 1-based closed, mirror x -> MF - x."""
+    from src.polya_finder import PolyAFinder
+    body, tail = POLYA_READS[g.choice("read", len(POLYA_READS))]
+    MF = 10 ** 6
+    s0 = g.int("reference_start", 100, 5000)
+    fwd = SeqAlignment(s0, body, "", tail)
+    # the aligned interval [s0+1, s0+len] (1-based) mirrors to [MF-s0-len, MF-s0-1]
+    rev = SeqAlignment(MF - s0 - len(body) - 1, revcomp(body), revcomp(tail), "")
+    finder = PolyAFinder(16, 0.75)
+    a, b = call(g, finder.detect_polya, fwd), call(g, finder.detect_polya, rev)
+
+    def mirrored(p, q, what):
+        exp = ITE(p == -1, -1, MF - p) if not isinstance(p, int) else (-1 if p == -1 else MF - p)
+        # known finding: tail positions are 0-based coordinates compared with 1-based ones, which puts the polyT head 2 bp further away
+        # (1 bp when the tail begins inside the aligned part: the two case analyses `pos >= mapped end` / `pos <= mapped start` are shifted by one)
+        ex = g.excl({"C11-polyt-position-two-bases-off": AND(p != -1, q != -1, q >= exp - 2, q <= exp + 2)})
+        g.check(q == exp, "polyT position of the reverse-complemented alignment = mirror image of the polyA position (%s)" % what, exclude=ex,
+                detail={"read": [body[-12:], tail[:12]], "polya": repr(p), "polyt_of_mirror": repr(q)})
+    mirrored(a.external_polya_pos, b.external_polyt_pos, "external")
+    mirrored(a.internal_polya_pos, b.internal_polyt_pos, "internal")
+    g.check(AND(a.external_polyt_pos == -1, a.internal_polyt_pos == -1, b.external_polya_pos == -1, b.internal_polya_pos == -1),
+            "no tail is reported at the end that has none")
+
+
 class ListSet:
     """stand-in for the vertex sets of the intron graph: iterates in the order given (set iteration order depends on the
     hash of (type, position), i.e. on the absolute coordinate: it is arbitrary and changes under translation)"""
@@ -365,6 +413,9 @@ def instances(tier, seed):
                         continue
                     out.append(Instance("mirror_assign[%s,%s,%s,%s]" % (locus, tid, shape, preset), h_assign_mirror(locus, tid, 0, n - 1, preset, shape), F,
                                         "locus %s and its mirror image, read %s %s" % (locus, shape, tid), weight=40 * n, budget_s=1500))
+    out.append(Instance("mirror_polya_finder", h_polya_finder, ["src.polya_finder:PolyAFinder.detect_polya", "src.polya_finder:PolyAFinder.find_polya_tail",
+                                                                "src.polya_finder:PolyAFinder.find_polyt_head", "src.polya_finder:move_ref_coord_alogn_alignment"],
+                        "%d read ends (tail length / purity / internal A-rich end), symbolic alignment start" % len(POLYA_READS), weight=20))
     for locus in sorted(EXTRA_LOCI):
         for preset in (["default"] if q else ["precise", "default", "loose"]):
             out.append(Instance("mirror_assign[%s,T0,drop_inner,%s]" % (locus, preset), h_assign_mirror(locus, "T0", 0, 2, preset, "drop_inner"), F,
